@@ -41,8 +41,11 @@ def content(draw, kinds=(0, 1, 2, 3, 4, 5, 6, 7), weights=None):
 @st.composite
 def cfg(draw, max_dim=208, presets=(8, 8, 8, 7, 7, 6, 6, 5, 4), frames=(2, 16), allow_rc=True, allow_twopass=False,
         allow_superres=True, allow_grain=True, allow_10bit=True, lps=(1, 2, 4), tools_p=3, allow_tiles=True,
-        allow_sc=True, recon=1, allow_overlay=True, slow_presets=(3, 2, 1, 0), slow_p=0, min_dim=64):
-    """returns (cfg dict, frames, twopass flag)"""
+        allow_sc=True, recon=1, allow_overlay=True, slow_presets=(3, 2, 1, 0), slow_p=0, min_dim=64, defective=False):
+    """returns (cfg dict, frames, twopass flag).
+    defective=False (the default for every check): features for which the pinned tree has LISTED known findings (known_findings.json) are drawn as
+    before and then removed again - exclusion by construction, so that the search continues behind those findings instead of rediscovering them in
+    ever new combinations; what was removed is recorded under cfg['__excluded__'] (never sent to the library) and counted in the evidence classes."""
     c = {}
     if slow_p and draw(st.integers(0, 99)) < slow_p:
         preset = draw(st.sampled_from(list(slow_presets)))
@@ -128,6 +131,33 @@ def cfg(draw, max_dim=208, presets=(8, 8, 8, 7, 7, 6, 6, 5, 4), frames=(2, 16), 
             name = draw(st.sampled_from(sorted(TOOL_RANGED)))
             lo, hi = TOOL_RANGED[name]
             c[name] = draw(st.integers(lo, hi))
+    if not defective:
+        ex = []
+        if c.pop("enable_overlays", None):
+            ex.append("OVL")
+        if c.get("enable_adaptive_quantization") == 1:
+            c.pop("enable_adaptive_quantization")
+            ex.append("AQ1")
+        if c.pop("film_grain_denoise_strength", None):
+            ex.append("GRAIN")
+        if c.get("superres_mode"):
+            for k in ("superres_mode", "superres_denom", "superres_kf_denom"):
+                c.pop(k, None)
+            ex.append("SRES")
+        if c.get("is_16bit_pipeline") and c.get("encoder_bit_depth", 8) == 8:
+            c.pop("is_16bit_pipeline")
+            ex.append("16BP")
+        if c.get("enable_tpl_la", 1) == 0:
+            c.pop("enable_tpl_la")
+            ex.append("TPL0")
+        if twopass:
+            twopass = 0
+            ex.append("2PASS")
+        if c.get("rate_control_mode") and c.get("min_qp_allowed") == 0:
+            c["min_qp_allowed"] = 1
+            ex.append("MINQ0")
+        if ex:
+            c["__excluded__"] = ex
     return c, n, twopass
 
 
